@@ -80,7 +80,7 @@ def sa_load_only(fields):
 def kinds_for(fields, for_load=False):
     out = []
     for k in KINDS:
-        spec = {"kind": k, "name": "Model", "fields": fields}
+        spec = {"kind": k, "name": "Model", "fields": fields, "db_names": True}
         if spec_valid(spec) or (for_load and k == "sqlalchemy" and sa_load_only(fields)):
             out.append(k)
     return out
@@ -140,7 +140,7 @@ def check_spec(fields, cfgs_list, report):  # noqa: C901, PLR0912
     for cfg in cfgs_list:
         progs = {}
         for k in kinds:
-            spec = {"kind": k, "name": "Model", "fields": fields}
+            spec = {"kind": k, "name": "Model", "fields": fields, "db_names": True}
             if c03.config_meaningful(spec, [cfg]):
                 continue
             if k in ("pydantic", "sqlalchemy", "typeddict") and (cfg.get("as_list") or str(cfg.get("map", "")).startswith("idx")):
@@ -247,7 +247,7 @@ def check_spec(fields, cfgs_list, report):  # noqa: C901, PLR0912
 
 def check_converters(fields, report):
     kinds = kinds_for(fields)
-    classes = {k: build({"kind": k, "name": "Model", "fields": fields}) for k in kinds}
+    classes = {k: build({"kind": k, "name": "Model", "fields": fields, "db_names": True}) for k in kinds}
     values = {fname: copy.deepcopy(TYPES[tkey]["good"][0][1]) for fname, tkey, _ in fields}
     for ka in kinds:
         for kb in kinds:
